@@ -148,6 +148,11 @@ type Tx struct {
 	// Storage.CheckHealth at commit), so that an unhealthy commit is not turned
 	// into a failed transaction before an independent health check can see it.
 	NoAtreeValidation bool
+	// Environment, if set, is passed as runtime.Context.Environment instead of letting the
+	// runtime create a fresh one: a host that reuses one environment across transactions
+	// (as production hosts do) is modelled by passing the same value to consecutive Runs
+	// (see NewTxEnvironment). Only meaningful for transactions; must match UseVM.
+	Environment runtime.Environment
 }
 
 // Result is everything observable from one run.
@@ -584,7 +589,7 @@ func Run(l *Ledger, tx Tx) (res *Result) {
 			loc = common.TransactionLocation{0x1}
 		}
 	}
-	ctx := runtime.Context{Interface: hostIface, Location: loc, UseVM: tx.UseVM, MemoryGauge: memGauge, ComputationGauge: compGauge}
+	ctx := runtime.Context{Interface: hostIface, Location: loc, UseVM: tx.UseVM, MemoryGauge: memGauge, ComputationGauge: compGauge, Environment: tx.Environment}
 
 	func() {
 		defer func() {
@@ -630,4 +635,14 @@ func Deploy(l *Ledger, addr common.Address, name, code string, useVM bool) {
 	if !r.OK() {
 		panic(fmt.Sprintf("rt.Deploy %s failed: %s", name, r.ErrString()))
 	}
+}
+
+// NewTxEnvironment creates a transaction environment that can be reused across
+// several Runs (Tx.Environment), with the configuration Run uses by default.
+func NewTxEnvironment(useVM bool) runtime.Environment {
+	cfg := runtime.Config{AtreeValidationEnabled: true}
+	if useVM {
+		return runtime.NewBaseVMEnvironment(cfg)
+	}
+	return runtime.NewBaseInterpreterEnvironment(cfg)
 }
